@@ -422,13 +422,25 @@ impl Ctx {
     }
 
     pub fn is_known(&self, sig: &str) -> bool {
+        // development aid (tools/witness.sh): only failures whose signature contains the
+        // wanted substring count, so the shrinker converges on a witness of that finding
+        if let Ok(w) = std::env::var("VERIF_DEV_WANT_SIG") {
+            if !w.is_empty() {
+                return !sig.contains(&w);
+            }
+        }
         self.findings.match_sig(&self.prop, sig).is_some()
     }
 
     /// Record a failure found by the search. Returns true if it is a *new* violation
     /// (unknown signature), false if it matched a listed finding.
     pub fn record_failure(&self, f: &Failure, replay_case: &J) -> bool {
-        if let Some(fd) = self.findings.match_sig(&self.prop, &f.sig) {
+        let want = std::env::var("VERIF_DEV_WANT_SIG").map(|w| !w.is_empty()).unwrap_or(false);
+        if want && self.is_known(&f.sig) {
+            return false;
+        }
+        let matched = if want { None } else { self.findings.match_sig(&self.prop, &f.sig) };
+        if let Some(fd) = matched {
             let mut g = self.inner.lock().unwrap();
             *g.known_hits.entry(fd.sig.clone()).or_insert(0) += 1;
             g.known_lines.insert(format!(
